@@ -481,3 +481,15 @@ package state
 
 // (contract of ExpiredDebondingQueue: see the epoch transition helpers above)
 // note: GDecTrue counts the queue keys that decoded. The scan appends one entry per decoded key and stops early only at a key that does not decode or whose end epoch is AFTER the given epoch: a delegation whose debonding ends exactly at the epoch is returned (and paid out) at that epoch's transition, not one transition later
+
+// ---- epoch signing counters (C10): updated on every block from the previous commit's votes ----
+
+//@ import "github.com/oasisprotocol/oasis-core/go/common/crypto/signature"
+
+//@ func EpochSigning.Update
+//@   props C10
+//@   requires es != nil && es.ByEntity != nil
+//@   loop 1 invariant es.Total == old(es.Total) + 1
+//@   loop 1 invariant forall k signature.PublicKey :: int(es.ByEntity[k]) <= int(old(es.ByEntity[k])) + idx()
+//@   ensures old(es.Total) < 9223372036854775808 && len(signingEntities) < 1048576 && (forall k signature.PublicKey :: old(es.ByEntity[k]) < 9223372036854775808) ==> err == nil
+//@   note (C10) the per-block update of the signing counters - run in BeginBlock, where an error stops the chain - fails only on a genuine counter overflow: with counters far from 2^64 it succeeds for EVERY list of signing entities, also one that names the same entity several times (one entity running several validators: its count may exceed the block total) (seed C10_k rejected a count above the total)
